@@ -66,7 +66,55 @@ def eval_bool(e, env, atoms=None):
         return UNKNOWN if v is _NOVAL else bool(v)
     if isinstance(e, ast.Constant):
         return bool(e.value)
+    if isinstance(e, ast.Call) and HOOK.get("call") is not None:
+        return HOOK["call"](e, env, atoms)
     return UNKNOWN
+
+
+HOOK = {"call": None, "value": None}  # optional evaluator for calls of program functions: (call node, env, atoms) -> bool | UNKNOWN
+
+
+def program_call_evaluator(program, modules, max_depth=3, want_value=False):
+    """calls of the program's own predicate functions are evaluated by interpreting the callee's control skeleton
+    on the argument values (same finite-domain evaluation, one level of the call graph at a time)"""
+    depth = [0]
+
+    def hook(call, env, atoms=None):
+        if not isinstance(call.func, ast.Name) or call.keywords or depth[0] >= max_depth:
+            return _NOVAL if want_value else UNKNOWN
+        f = None
+        for m in modules:
+            f = program.resolve_func(m, call.func)
+            if f is not None:
+                break
+        if f is None or f.cls is not None:
+            return _NOVAL if want_value else UNKNOWN
+        params = f.pos_params
+        if len(call.args) > len(params) or any(isinstance(a, ast.Starred) for a in call.args):
+            return _NOVAL if want_value else UNKNOWN
+        env2 = {}
+        for pn, a in zip(params, call.args):
+            v = value_of(a, env)
+            if v is not _NOVAL and v is not _RAISES:
+                env2[pn] = v
+        for pn, d in zip(params[len(params) - len(f.node.args.defaults):], f.node.args.defaults):
+            if pn not in env2 and params.index(pn) >= len(call.args) and isinstance(d, ast.Constant):
+                env2[pn] = d.value
+        depth[0] += 1
+        saved = dict(LAST)
+        try:
+            r = run_chain(f.node.body, env2, atoms)
+            if r[0] == "return":
+                if want_value:
+                    return value_of(r[1], LAST.get("ret_env", env2)) if r[1] is not None else None
+                return eval_bool(r[1], LAST.get("ret_env", env2), atoms) if r[1] is not None else False
+            return _NOVAL if want_value else UNKNOWN
+        finally:
+            depth[0] -= 1
+            LAST.clear()
+            LAST.update(saved)
+
+    return hook
 
 
 class _NoVal:
@@ -74,6 +122,13 @@ class _NoVal:
 
 
 _NOVAL = _NoVal()
+
+
+class _Raises:
+    """evaluating the expression on this representative raises TypeError / ValueError"""
+
+
+_RAISES = _Raises()
 
 
 class _Ast:
@@ -117,6 +172,17 @@ def value_of(e, env):
         if k is not _NOVAL and not isinstance(k, list) and k in d and not isinstance(d[k], ast.AST):
             return d[k]
         return _NOVAL
+    if isinstance(e, ast.Call) and isinstance(e.func, ast.Name) and e.func.id == "float" and len(e.args) == 1 and not e.keywords and "float" not in env:
+        # the builtin on a representative: numbers convert, None / containers raise TypeError, the representative
+        # (non-numeric) string raises ValueError
+        v = value_of(e.args[0], env)
+        if v is _NOVAL:
+            return _NOVAL
+        if isinstance(v, (bool, int, float)):
+            return float(v)
+        return _RAISES
+    if isinstance(e, ast.Call) and isinstance(e.func, ast.Name) and HOOK.get("value") is not None and e.func.id not in env:
+        return HOOK["value"](e, env)
     if isinstance(e, ast.Dict) and all(k is not None for k in e.keys):
         # a table display: only its keys matter for membership tests
         ks = [value_of(k, env) for k in e.keys]
@@ -208,6 +274,7 @@ def run_chain(stmts, env, atoms=None, depth=0):
                 return r
             continue
         if isinstance(s, ast.Return):
+            LAST["ret_env"] = dict(env)
             return ("return", _apply_kept(s.value, env))
         if isinstance(s, ast.Assign) and len(s.targets) == 1 and isinstance(s.targets[0], ast.Tuple) and all(isinstance(t, ast.Name) for t in s.targets[0].elts):
             v = value_of(s.value, env)
@@ -240,12 +307,23 @@ def run_chain(stmts, env, atoms=None, depth=0):
             return ("raise", s)
         if isinstance(s, ast.Assign) and len(s.targets) == 1 and isinstance(s.targets[0], ast.Name):
             v = value_of(s.value, env)
+            if v is _RAISES:
+                return ("unknown", s)
             if v is _NOVAL:
                 env.pop(s.targets[0].id, None)
             else:
                 env[s.targets[0].id] = v
             continue
         if isinstance(s, ast.Try):
+            # `try: T = <conversion>` whose conversion raises on this representative: the handler for it runs instead
+            if len(s.body) == 1 and isinstance(s.body[0], (ast.Assign, ast.Return)) and s.body[0].value is not None and value_of(s.body[0].value, env) is _RAISES and not s.orelse and not s.finalbody:
+                hs = [h for h in s.handlers if h.type is None or {ast.unparse(t) for t in (h.type.elts if isinstance(h.type, ast.Tuple) else [h.type])} >= {"TypeError", "ValueError"} or ast.unparse(h.type) in ("Exception", "BaseException")]
+                if not hs or hs[0] is not s.handlers[0]:
+                    return ("unknown", s)
+                r = run_chain(hs[0].body, env, atoms, depth + 1)
+                if r[0] != "fall":
+                    return r
+                continue
             r = run_chain(s.body, env, atoms, depth + 1)
             if r[0] != "fall":
                 return r
